@@ -5,26 +5,37 @@ From PcoreV Require Import Model.Base Model.Dispatch.
 Import ListNotations.
 Open Scope Z_scope.
 
-(* "block satisfies declared block type": oracle table observed from px.IsInstance(Callable[..], lambda)
+(* "the call's block - or the absence of one - satisfies the declared block type": oracle table observed from
+   px.IsInstance(<declared block type>, lambda) and px.IsInstance(<declared block type>, undef) (`None`)
    (Callable assignability is modelled rather than verified, see props/C16.json) *)
-Definition btab_inst (tab : list (N * N)) (bt b : N) : bool :=
-  existsb (fun p => N.eqb (fst p) bt && N.eqb (snd p) b) tab.
+Definition optN_eqb (a b : option N) : bool :=
+  match a, b with
+  | Some x, Some y => N.eqb x y
+  | None, None => true
+  | _, _ => false
+  end.
+
+Definition btab_inst (tab : list (N * option N)) (bt : N) (b : option N) : bool :=
+  existsb (fun p => N.eqb (fst p) bt && optN_eqb (snd p) b) tab.
 
 (* what the harness observed for one generated function: the builder panicked in dispatch i with a
-   message of class c, or the results of the calls *)
+   message of class c (Resolve raising a reported error: dispatch 0, POther), or the results of the calls *)
 Inductive fnobs := ObsPanic (i : nat) (c : pcode) | ObsCalls (rs : list callres).
 
 Definition fncase :=
   (list (str * pty) * list (list (bop pty N)) * list (list pval * option N) * fnobs)%type.
 
-Definition model_fn (tab : list (N * N)) (aliases : list (str * pty)) (dss : list (list (bop pty N)))
-           (calls : list (list pval * option N)) : fnobs :=
-  (* createDispatch resolves the type references against the local types (function.go:191) *)
-  let env := resolve_aliases aliases in
-  match build_function (map (map (subst_op env)) dss) with
+Definition obs_of (tab : list (N * option N)) (r : fnres) (calls : list (list pval * option N)) : fnobs :=
+  match r with
   | inl (i, code) => ObsPanic i code
   | inr ds => ObsCalls (map (fun cl => call pinst (btab_inst tab) ds (fst cl) (snd cl)) calls)
   end.
+
+(* one function built and resolved in a fresh context (function.go:123-180: builder, local types, createDispatch
+   with the type references resolved against the local types) *)
+Definition model_fn (tab : list (N * option N)) (aliases : list (str * pty)) (dss : list (list (bop pty N)))
+           (calls : list (list pval * option N)) : fnobs :=
+  obs_of tab (snd (resolve_fn ctx0 (aliases, dss))) calls.
 
 (* Projection of the builder's panics: the two complaints about the ORDER of the parameters (required after
    optional / anything after repeated) are one class — which of the two tests fires first when both apply
@@ -39,10 +50,25 @@ Definition fnobs_eqb (a b : fnobs) : bool :=
   | _, _ => false
   end.
 
-Definition fn_check (tab : list (N * N)) (c : fncase) : bool :=
+Definition fn_check (tab : list (N * option N)) (c : fncase) : bool :=
   let '(aliases, dss, calls, obs) := c in fnobs_eqb (model_fn tab aliases dss calls) obs.
 
-Definition fn_mismatches (tab : list (N * N)) (cs : list fncase) : list N := failing (fn_check tab) cs.
+Definition fn_mismatches (tab : list (N * option N)) (cs : list fncase) : list N := failing (fn_check tab) cs.
+
+(* ---- histories: several functions built, resolved (some raising, recovered by the caller) and called one after
+   the other in ONE context ------------------------------------------------------------------------------- *)
+Definition histcase := list fncase.
+
+Definition decl_of_case (c : fncase) : fndecl := let '(aliases, dss, _, _) := c in (aliases, dss).
+
+Definition hist_check (tab : list (N * option N)) (h : histcase) : bool :=
+  let rs := snd (run_history ctx0 (map decl_of_case h)) in
+  Nat.eqb (length rs) (length h) &&
+  forallb (fun rc => let '(r, c) := rc in
+                     let '(_, _, calls, obs) := c in fnobs_eqb (obs_of tab r calls) obs)
+          (combine rs h).
+
+Definition hist_mismatches (tab : list (N * option N)) (cs : list histcase) : list N := failing (hist_check tab) cs.
 
 (* ---- new ---------------------------------------------------------------------------------------------- *)
 Fixpoint pval_eqb (a b : pval) {struct a} : bool :=
